@@ -299,16 +299,21 @@ func floatTable(input string) string {
 	for _, piece := range pieces[:len(pieces)-1] {
 		for _, tok := range strings.Fields(piece) {
 			for k := 0; k < len(tok); k++ {
-				suf := tok[k:]
-				if seen[suf] {
-					continue
+				if len(tok) > 4096 && k >= 64 && k < len(tok)-4096 {
+					// a very long token: only its first 64 and its last 4096 suffixes are tabulated (a
+					// float literal longer than 4 KiB glued to a longer prefix is not in the generators)
+					k = len(tok) - 4096
 				}
-				seen[suf] = true
+				suf := tok[k:]
 				c := suf[0]
 				// a float literal starts with a sign, a digit, a dot, or i/n (inf, nan)
 				if !(c == '+' || c == '-' || c == '.' || (c >= '0' && c <= '9') || c == 'i' || c == 'I' || c == 'n' || c == 'N') {
 					continue
 				}
+				if seen[suf] {
+					continue
+				}
+				seen[suf] = true
 				a, b := one(suf, 32), one(suf, 64)
 				if a == "s" && b == "s" {
 					continue
